@@ -424,7 +424,7 @@ def lw4(prog, rr):
 
 
 # --------------------------------------------------------------------------------------- LW5
-@rule("LW5", ["C01", "C03"], "enum fields: Assert of an Or-reduction of Eq(var, Const(e)) over all enumerators under is_used_rand", engine="SAI", floor=1)
+@rule("LW5", ["C01", "C03", "C02", "C18"], "enum fields: Assert of an Or-reduction of Eq(var, Const(e)) over all enumerators under is_used_rand", engine="SAI", floor=1)
 def lw5(prog, rr):
     f = prog.method("EnumFieldModel", "build")
     btor = _solver_param(f)
